@@ -468,6 +468,11 @@ func (s *Session) onPlay(resp *Response, req *Request) (err error) {
 
 func (s *Session) checkPermission(right auth.AccessRight) bool {
 	if s.authMode == auth.NoneAuth {
+		// websocket 接入：http 只验证了身份和 ws 路径的拉流权限，
+		// 会话内的操作（例如向 ANNOUNCE 指定的路径推流）仍需按该用户的权限检查
+		if s.wsconn != nil && (s.user != nil || config.Auth()) {
+			return s.user != nil && s.user.ValidatePermission(s.path, right)
+		}
 		return true
 	}
 
@@ -564,7 +569,9 @@ func (s *Session) onPreprocess(resp *Response, req *Request) (continueProcess bo
 		return false, err
 	}
 
-	s.user = user
+	if s.authMode != auth.NoneAuth { // websocket 接入时用户来自 http 验证，不被空的 RTSP 验证结果覆盖
+		s.user = user
+	}
 	return true, nil
 }
 
